@@ -209,8 +209,9 @@ Definition ctx_sane (c : ctx) : vparams :=
   end.
 
 (* ------------------------------------------------------------------ script summary *)
-(* MiniscriptKey::{is_uncompressed, is_x_only_key, num_der_paths} *)
-Record keyinfo := mkKey { k_uncompressed : bool; k_xonly : bool; k_paths : N }.
+(* MiniscriptKey::{is_uncompressed, is_x_only_key, num_der_paths}; k_id identifies the key
+   value (two occurrences are `==` as Pk iff they carry the same id) *)
+Record keyinfo := mkKey { k_id : N; k_uncompressed : bool; k_xonly : bool; k_paths : N }.
 
 (* the Terminal constructors that validate / check_global_* / top_level_checks distinguish *)
 Inductive nkind :=
@@ -231,11 +232,23 @@ Record summary := mkSum {
   s_nonmall : bool;              (* ty.mall.non_malleable  (is_non_malleable) *)
   s_signed : bool;               (* ty.mall.signed         (requires_sig) *)
   s_tree_height : N;             (* ext.tree_height *)
-  s_dup_keys : bool;             (* has_repeated_keys() *)
   s_mixed_locks : bool;          (* has_mixed_timelocks() = ext.timelock_info.contains_combination *)
   s_nodes : list node;           (* self.iter() = pre-order; head is the root *)
   s_script_size : N;             (* script_size() *)
   s_sat : option satfig }.       (* ext.sat_data *)
+
+(* keys that iter_pk / for_each_key visit: those of PkK, PkH and the four multi kinds *)
+Definition vkeys (n : node) : list keyinfo :=
+  match n_kind n with
+  | KPkK | KPkH | KMulti | KSortedMulti | KMultiA | KSortedMultiA => n_keys n
+  | _ => []
+  end.
+Definition all_keys (ns : list node) : list keyinfo := flat_map vkeys ns.
+
+(* analyzable.rs has_repeated_keys: iter_pk().count() != iter_pk().collect::<BTreeSet<_>>().len() *)
+Definition has_repeated_keys (s : summary) : bool :=
+  let ids := map k_id (all_keys (s_nodes s)) in
+  negb (N.of_nat (length (nodup N.eq_dec ids)) =? N.of_nat (length ids)).
 
 (* ------------------------------------------------------------------ validation errors *)
 Inductive verr :=
@@ -321,7 +334,7 @@ Fixpoint check_nodes (p : vparams) (st : option N) (ns : list node) : vres :=
    model has a single match on s_sat and no Panic outcome. *)
 Definition validate_non_top_level (p : vparams) (s : summary) : vres :=
   if max_recursive_depth p <? s_tree_height s then VErr EMaxRecursiveDepth
-  else if negb (allow_duplicate_keys p) && s_dup_keys s then VErr EDuplicateKeys
+  else if negb (allow_duplicate_keys p) && has_repeated_keys s then VErr EDuplicateKeys
   else if negb (allow_mixed_time_locks p) && s_mixed_locks s then VErr EMixedTimeLocks
   else match check_nodes p None (s_nodes s) with
   | VErr e => VErr e
@@ -424,8 +437,6 @@ Definition mp_step (st : mpstate) (k : keyinfo) : mpstate :=
          | MpMismatch => MpMismatch
          end
   end.
-Definition all_keys (ns : list node) : list keyinfo := flat_map n_keys ns.
-
 Inductive terr := TeMultipath | TeNonStandardBare.
 Inductive tres := TOk | TErr (e : terr).
 
